@@ -66,7 +66,7 @@ func Harness_C10_Authorizer() {
 	z.decision = vChoice("decision", 3)
 	z.armed = true
 	before := vSnapshot(rl)
-	kind := vChoice("kind", 8)
+	kind := vChoice("kind", 10)
 	ack := vBool("publish.ack")
 	var req wamp.ID = 50
 	var mtype wamp.MessageType
@@ -96,6 +96,14 @@ func Harness_C10_Authorizer() {
 	case 7:
 		mtype = wamp.YIELD
 		a.send(&wamp.Yield{Request: req})
+	case 8: // leaving is a message like any other
+		mtype = wamp.GOODBYE
+		req = 0
+		a.send(&wamp.Goodbye{Reason: wamp.CloseRealm, Details: wamp.Dict{}})
+	case 9: // an INVOCATION error (a is not serving anything: only the gate matters)
+		mtype = wamp.ERROR
+		req = 0
+		a.send(&wamp.Error{Type: wamp.INVOCATION, Request: 77, Error: "x.y", Details: wamp.Dict{}})
 	}
 	got := a.drain()
 	seen := b.drain()
